@@ -338,6 +338,12 @@ def discharge(pairs, path, defined, witness, timeout_s=10.0, seed=0, norm_first=
         return Verdict("proved", "NORM", time.time() - t0, detail=detail, queries=queries)
     if res:
         detail["norm_residual"] = res[:4]
+    # 3b. inequality obligations: normalise b - a to num/den and ask z3 about the polynomial sign condition only
+    if all(T.is_const(b) and b is True and isinstance(a, T.Term) and a.op in ("le", "lt") for a, b in lp):
+        v = _poly_inequalities(lp, path, defined, timeout_s, seed, detail)
+        queries += 1
+        if v == "unsat":
+            return Verdict("proved", "NORM+NRA", time.time() - t0, detail=detail, queries=queries)
     # 4. RAW with the full cap
     if timeout_s > raw_first_s or norm_first:
         v = try_raw(timeout_s)
@@ -372,6 +378,70 @@ def norm_fold(cond, fixed):
     except NormFail:
         pass
     return cond
+
+
+def _poly_inequalities(lp, path, defined, timeout_s, seed, detail):
+    """a <= b  with b - a = n/d in normal form: violated iff n*d < 0 (resp. <= 0 for strict); decided by z3 on polynomials over the
+    generators, with the atom relations (r >= 0, r^2 = radicand) and the sign facts of the leaves as constraints"""
+    import z3
+
+    try:
+        from .timebox import timebox
+        with timebox(max(5.0, timeout_s), NormFail("inequality normalisation budget")):
+            roots = [x for a, _ in lp for x in a.args]
+            N = Normaliser(roots, fixed=path_fixed(path))
+            zv = {nm: z3.Real(f"g{i}") for nm, i in N.idx.items()}
+            order = [None] * len(N.names)
+            for nm, i in N.idx.items():
+                order[i] = zv[nm]
+
+            def p2z(poly):
+                acc = z3.RealVal(0)
+                for mon, coef in poly.terms():
+                    term = z3.RealVal(str(Fraction(int(coef.numerator), int(coef.denominator))))
+                    for i, e in enumerate(mon):
+                        for _ in range(e):
+                            term = term * order[i]
+                    acc = acc + term
+                return acc
+
+            s = z3.Solver()
+            s.set("timeout", int(timeout_s * 1000))
+            # atom relations and signs
+            for i, rad in N.rel.items():
+                g = order[i]
+                s.add(g * g == p2z(rad))
+                if N.names[i].startswith(("r_", "m_")):
+                    s.add(g >= 0)
+            for t in N.nodes:
+                nm = N.gen_of.get(t.id)
+                if nm is None or t.op != "var":
+                    continue
+                if t.id in T._POS:
+                    s.add(zv[nm] > 0)
+                elif t.id in T._NONNEG:
+                    s.add(zv[nm] >= 0)
+                lo, hi = T._BOUNDS.get(t.id, (None, None))
+                if lo is not None:
+                    s.add(zv[nm] >= z3.RealVal(str(lo)))
+                if hi is not None:
+                    s.add(zv[nm] < z3.RealVal(str(hi)))
+            bad = []
+            for a, _ in lp:
+                x, y = a.args
+                (n1, d1), (n2, d2) = N._pair(x), N._pair(y)
+                num = N.red(n2 * d1 - n1 * d2)
+                den = N.red(d1 * d2)
+                nz, dz = p2z(num), p2z(den)
+                s.add(dz != 0)
+                bad.append(nz * dz < 0 if a.op == "le" else nz * dz <= 0)
+            s.add(z3.Or(*bad) if len(bad) > 1 else bad[0])
+        r = str(s.check())
+        detail["poly_inequality"] = r
+        return r
+    except (NormFail, T.UnsupportedTerm) as e:
+        detail["poly_inequality"] = f"fail: {e}"
+        return "unknown"
 
 
 def feasible(conds, witness, timeout_s=10.0, seed=0, n_points=200):
